@@ -24,6 +24,7 @@ for _m in (tad, reverse_dfs, conditionalrewards, roberta_generator, stochastic_g
     if _where != REPO:
         raise RuntimeError("harness error: %s imported from %s, expected %s" % (_m.__name__, _where, REPO))
 
+logging.getLogger().addHandler(logging.NullHandler())    # so that logging.info() never installs a stream handler via basicConfig()
 logging.disable(logging.CRITICAL)       # the library logs through the root logger; output is never an observation
 
 P1, P2, PR = "Player 1", "Player 2", "Probabilistic"
